@@ -106,5 +106,54 @@ impl EepromRange {
         }
     }
 @*/
-//@EEPROM_RANGE_EXTRA
+
+/*@fn file=src/eeprom/mod.rs impl="impl<P> embedded_io_async::Write for EepromRange<P>" name=write subst="Self::Error=>Error" props=C14,C13 attr="#[verifier::loop_isolation(false)] #[verifier::allow_complex_invariants]"
+    requires old(self).wf()
+    ensures
+        final(self).wf(),
+        final(self).end == old(self).end,
+        final(self).reader.chunk() == old(self).reader.chunk(),
+        r is Ok ==> ({
+            let n = r->Ok_0 as int;
+            let k = (n + 1) / 2;                       // words written
+            let w0 = old(self).byte_pos as int / 2;
+            &&& 0 <= n <= buf@.len()
+            &&& final(self).reader.wlog().len() == old(self).reader.wlog().len() + k
+            &&& forall|i: int| 0 <= i < k ==> #[trigger] final(self).reader.wlog()[old(self).reader.wlog().len() + i]
+                    == ((w0 + i) as u16, buf@[2 * i], if 2 * i + 1 < buf@.len() { buf@[2 * i + 1] } else { 0u8 })
+            &&& forall|i: int| 0 <= i < old(self).reader.wlog().len() ==> final(self).reader.wlog()[i] == old(self).reader.wlog()[i]
+            // never past the permitted range: every word written starts before the window end
+            &&& (k > 0 ==> old(self).byte_pos + 2 * (k - 1) < old(self).end)
+            // stops only when the data or the window is exhausted
+            &&& (n == buf@.len() || old(self).byte_pos + 2 * k >= old(self).end)
+        }),
+@entry
+    let ghost buf0 = buf@;
+    let ghost log0 = self.reader.wlog();
+    let ghost pos0: int = self.byte_pos as int;
+@loop 0
+    invariant
+        self.wf(), self.end == old(self).end, self.reader.chunk() == old(self).reader.chunk(),
+        0 <= written as int <= buf0.len(),
+        buf@ == buf0.subrange(written as int, buf0.len() as int),
+        len == buf0.len(),
+        (written as int % 2 == 1) ==> written as int == buf0.len(),
+        self.byte_pos as int == (if pos0 + 2 * ((written as int + 1) / 2) > 0xffff { 0xffff } else { pos0 + 2 * ((written as int + 1) / 2) }),
+        self.reader.wlog().len() == log0.len() + (written as int + 1) / 2,
+        forall|i: int| 0 <= i < (written as int + 1) / 2 ==> #[trigger] self.reader.wlog()[log0.len() + i]
+            == ((pos0 / 2 + i) as u16, buf0[2 * i], if 2 * i + 1 < buf0.len() { buf0[2 * i + 1] } else { 0u8 }),
+        forall|i: int| 0 <= i < log0.len() ==> self.reader.wlog()[i] == log0[i],
+        ((written as int + 1) / 2 > 0 ==> pos0 + 2 * ((written as int + 1) / 2 - 1) < self.end),
+    ensures
+        written as int == buf0.len() || pos0 + 2 * ((written as int + 1) / 2) >= self.end,
+    decreases buf@.len()
+@closure 0 "|__p: (&[u8; 2], &[u8])| -> (cr: ([u8; 2], &[u8]))" bind="(word, rest)"
+    ensures cr.0 == *(__p.0), cr.1 == __p.1
+@closure 1 "|| -> (cr: Option<([u8; 2], &[u8])>)"
+    ensures
+        buf@.len() == 0 ==> cr is None,
+        buf@.len() > 0 ==> cr is Some && (cr->Some_0).0@ == seq![buf@[0], 0u8] && (cr->Some_0).1@ == buf@.subrange(1, buf@.len() as int),
+@closure 2 "|__p: (&u8, &[u8])| -> (cr: ([u8; 2], &[u8]))" bind="(first, rest)"
+    ensures cr.0@ == seq![*(__p.0), 0u8], cr.1 == __p.1
+@*/
 }
